@@ -379,6 +379,23 @@ def rule_orderins(ctx):
         yield ob(R, f, "%s:visits-all-reference-patterns" % q, len(loops) == 1, "the reference pattern list is traversed completely (enumerate(reference_patterns))")
 
 
+def rule_genreuse(ctx):
+    """A generator expression bound to a name is consumed by its first traversal.  Iterating it inside a loop or
+    comprehension entered after it was created (or a second time) silently sees nothing from the second pass on, so the
+    result depends on which element of the outer collection comes first - an order dependence no permutation-blind
+    formula survives."""
+    R = "C08.GENREUSE"
+    n = 0
+    for f in ctx.program.all_funcs(include_new=True):
+        if f.module.name in ("sonify", "display"):
+            continue
+        s = ctx.S.get(f.qual)
+        for g in s.by_kind("gen_reuse"):
+            n += 1
+            yield ob(R, f, "%s:generator[%s]" % (f.qual, g.name), False, "the generator %s is traversed %s: from the second traversal on it is empty" % (g.name, "inside a loop / comprehension entered after it was created" if g.nested else "more than once"), node=g.node)
+    yield ob(R, "mir_eval/", "package:generators-consumed-once", True, "every generator object held in a variable is traversed once (%d re-traversals reported)" % n)
+
+
 def rule_labelcanon(ctx):
     """Shared with C16.CASEFOLD: label identity is equality of str(label).lower(); a bijective renaming that keeps
     labels distinct keeps them distinct after canonicalisation only if nothing else is normalised away."""
@@ -414,6 +431,7 @@ def rule_shiftshared(ctx):
 
 
 RULES = [
+    ("C08.GENREUSE", 1, rule_genreuse),
     ("C08.SHIFTSHARED", 10, rule_shiftshared),
     ("C08.LABELCANON", 1, rule_labelcanon),
     ("C08.LABELLIST", 7, rule_labellist),
